@@ -132,6 +132,22 @@ SPECS = {
         800,
         40000,
     ),
+    "C06": _pl(
+        "Standardiser always keeps the forwarded demand within its limits",
+        "one world per seed: a Standardiser with parameters from everything the constructor accepts (infinite / fractional limits, integral and fractional granularity) over a recording pool, "
+        "1-60 operations (int and float demand writes biased onto the limits, reads, supply changes, outside demand changes, n-increments comparisons over frozen twin pools); exact dyadic arithmetic, "
+        "Fraction reference; non-trivial = at least one write; distinct = distinct (set of active limits, demand type mode, op kinds used, length bucket)",
+        40000,
+        800000,
+    ),
+    "C08": _pl(
+        "Controllers move demand only in the documented direction and amount",
+        "one world per seed: one controller (Linear, RelativeSupply, Stepwise via @stepwise/add/.s/direct, DemandSwitch over shipped and instrumented slave controllers) over a recording pool, "
+        "1-60 regulation steps with pool states biased onto thresholds and one grid step around them; non-trivial = at least one step; "
+        "distinct = distinct (controller, #steps bucket, parameter names, table size, construction path, whether a step sat exactly on a threshold)",
+        40000,
+        800000,
+    ),
     "C09": _pl(
         "Periodic services act once per interval",
         "one world per seed: a shipped periodic service over recording pools, a generated timed environment script "
